@@ -40,7 +40,7 @@ def line_coverage(chk):
 
 def run(chk):
     exe = build()
-    per = chk.pick(700, 6250)          # histories per shard: 4 000 quick, 100 000 thorough
+    per = chk.pick(700, 30000)          # histories per shard: 4 000 quick, 100 000 thorough
     chk.run('asan', exe, per)
     if not chk.quick():
         # same generator under pattern-initialised locals (an uninitialised cursor then points nowhere) ...
